@@ -1,6 +1,8 @@
 package main
 
 import (
+	"context"
+	"os/exec"
 	"encoding/json"
 	"flag"
 	"fmt"
@@ -78,6 +80,8 @@ func (a *AggOb) deadSuccessParts() int {
 var reRet = regexp.MustCompile(`@ret\d+`)
 
 func aggName(n string) string { return reRet.ReplaceAllString(n, "") }
+
+var mutSample string // thorough tier: summary line of the sampled mutation sweep of this property (evidence)
 
 var expectMode bool // gcv expect: keep every generated obligation while the list is being written
 
@@ -462,6 +466,10 @@ func cmdCheck(args []string) int {
 			fmt.Println("SELFTEST:", l)
 		}
 		fmt.Printf("must-fail corpus for %s: %d mutants, %d not detected\n", spec.Property, selfTotal, selfMissed)
+		mutSample = mutationSample(spec.Property, seed)
+		if mutSample != "" {
+			fmt.Println("mutation sample:", mutSample)
+		}
 	}
 	cr.selfTotal, cr.selfMissed = selfTotal, selfMissed
 	writeEvidence(cr, *tier, seed, total, discharged, violations, knownSeen, time.Since(t0))
@@ -566,6 +574,7 @@ func writeEvidence(cr *checkRun, tier string, seed int, total, discharged, viola
 			"known_findings_met":       known,
 			"abstracted_instructions":  cr.abstr,
 			"bounded_stand_ins":        cr.spec.Bounded,
+			"mutation_sample":          mutSample,
 			"replay_drivers":           map[string]int{"registered_for_obligations_of_this_check": regDrivers, "functions_with_generated_driver": autoFns},
 			"solver_ms":                solveMS,
 			"vcgen_ms":                 genMS,
@@ -635,4 +644,23 @@ func cmdExpect(args []string) int {
 	os.WriteFile(filepath.Join(verifRoot, "checks", spec.Property+".json"), append(data, '\n'), 0o644)
 	fmt.Printf("%s: %d obligations expected\n", spec.Property, len(names))
 	return 0
+}
+
+// mutationSample runs every n-th syntactic mutant of the property's units (about 40 of them; which ones depends on the
+// seed) through `gcv mutate` and returns its summary line.  It informs (contract adequacy), it never decides the check.
+func mutationSample(prop string, seed int) string {
+	exe, err := os.Executable()
+	if err != nil {
+		return ""
+	}
+	stride := 25
+	ctx, cancel := context.WithTimeout(context.Background(), 15*time.Minute)
+	defer cancel()
+	cmd := exec.CommandContext(ctx, exe, "mutate", "-property", prop, "-stride", strconv.Itoa(stride), "-phase", strconv.Itoa(seed), "-j", "8")
+	out, _ := cmd.Output()
+	lines := strings.Split(strings.TrimSpace(string(out)), "\n")
+	if len(lines) == 0 {
+		return ""
+	}
+	return fmt.Sprintf("every %dth mutant of the units of %s (phase %d): %s", stride, prop, seed%stride, lines[len(lines)-1])
 }
